@@ -87,6 +87,9 @@ impl Report {
         }
     }
     pub fn outcome<T: std::hash::Hash>(&mut self, t: &T) {
+        if cfg!(miri) {
+            return; // outcome statistics are meaningless (and very slow) under the interpreter
+        }
         if self.outcomes.len() < 100_000 {
             self.outcomes.insert(hash64(t));
         }
@@ -291,6 +294,16 @@ pub fn bytes_over(alpha: &[u8], max: usize) -> Vec<Vec<u8>> {
 /// Index set straddling every comparison in the slicing code:
 /// 0..=len+2 plus values around isize::MAX and usize::MAX.
 pub fn index_set(len: usize) -> Vec<usize> {
+    if cfg!(miri) {
+        // interpreter tier: one value per comparison outcome
+        let mut v = vec![0, len, len + 1, usize::MAX];
+        if len > 1 {
+            v.push(1);
+        }
+        v.sort();
+        v.dedup();
+        return v;
+    }
     let mut v: Vec<usize> = (0..=len + 2).collect();
     v.extend_from_slice(&[
         isize::MAX as usize - 1,
@@ -356,7 +369,15 @@ pub fn n_threads(tier: Tier) -> usize {
 // ---------------------------------------------------------------- panics
 
 pub fn silence_panics() {
-    std::panic::set_hook(Box::new(|_| {}));
+    // ordinary (unwinding) panics are expected outcomes and are caught by catch(); a panic that cannot unwind
+    // (std's "unsafe precondition(s) violated" checks, panics in no-unwind contexts) aborts the process: say why.
+    std::panic::set_hook(Box::new(|info| {
+        if let Some(m) = info.payload_as_str() {
+            if m.contains("unsafe precondition") || m.contains("cannot unwind") || m.contains("non-unwinding") {
+                eprintln!("NON-UNWINDING PANIC (process will abort): {m}");
+            }
+        }
+    }));
 }
 
 /// Ok(value) or Err(panic message)
@@ -514,4 +535,9 @@ pub fn char_set_desc(tier: Tier) -> &'static str {
         Tier::Quick => "every 1-/2-byte char, first/last char of every 3-/4-byte lead byte, surrogate-gap neighbours, stride 257 through the rest",
         Tier::Miri => "edges only",
     }
+}
+
+/// larger Miri bounds for the thorough tier (VERIF_MIRI_DEEP=1)
+pub fn miri_deep() -> bool {
+    std::env::var("VERIF_MIRI_DEEP").map_or(false, |v| v == "1")
 }
